@@ -29,7 +29,7 @@ PLAN = {
     'C10': (['c13_maplist_ops', 'c13_setlist_ops', 'c13_keylist_export_and_clear'], ['c13_keylist_queries', 'c13_keylist_insert']),
     'C12': (['c12_lists_clear_equals_new', 'c13_keylist_export_and_clear'], []),
     'C13': (['c13_maplist_ops', 'c13_setlist_ops', 'c13_keylist_export_and_clear', 'c13_keylist_queries', 'c13_keylist_insert'], []),
-    'C14': (['c14_layout_i32', 'c14_layout_u32', 'c14_layout_i64', 'c14_mask_bits_below_count'], ['c14_new_some_iff_more_than_16_points']),
+    'C14': (['c14_layout_i32', 'c14_layout_u32', 'c14_layout_i64', 'c14_mask_bits_below_count'], []),     # c14_new_some_iff_more_than_16_points: CBMC out of memory after 990 s
     'C15': (['c15_masks_meet_iff_overlap', 'c15_places_tile_range'], ['c15_tree_copies_per_insert']),
     'C18': (['c18_keylist_callback_state', 'c18_keylist_purge_panic_keeps_cache_valid'], []),
     'C19': (['c13_keylist_export_and_clear'], []),
